@@ -1,9 +1,16 @@
 import RainModel.Model.LoopStep
 import RainModel.Lemmas.LoopFrame
 import RainModel.Lemmas.LoopHmd
+import RainModel.Lemmas.LoopPrivate
 /-!
 C19 — private torrents use only their trackers.  Theorems over M-LOOP (the model of the repaired
 code, finding C19-F1); the tie to the code is the `private` suite.
+
+The first four theorems are about the single handlers.  The run-level theorems
+(`private_step_isolated`, `private_dstep_isolated`, `private_run_isolated`,
+`private_magnet_never_adopted_run`) lift them to every event of the alphabet and to every event history,
+including the steps that adopt the implementation's nondeterministic choices (`reconcile`,
+`reconcileIdl`); their lemmas are in `Lemmas/LoopPrivate.lean`.
 -/
 namespace Rain.Props.C19
 open Rain.Loop
@@ -59,5 +66,145 @@ theorem private_magnet_refused (m : M) (k i len : Nat) (good : Bool) (hp : m.1.c
   · exact h
   · rw [handleMetadataData_complete m d k i len good hc, hmdAdopt_refused (hmdStored m d k i good) (Or.inr hp)]
     simp [hmdStored]
+
+/-! ### Every event, every history -/
+
+/-- **private_step_isolated.** One event, whichever it is (commands, gates, peer messages, extension
+handshakes advertising PEX, PEX messages, DHT results, metadata messages, …), in whatever state and
+with whatever piece message parked: a private torrent whose metadata is known and towards none of whose
+peers PEX runs is again such a torrent afterwards, with the same configuration, and it has made no
+connection attempt to an address learnt from PEX or the DHT.  No hypothesis on the state beyond these
+(no `InitLike`, no `Life`, panicked or not). -/
+theorem private_step_isolated (s : St) (parked : Parked) (known : Nat → Bool) (op : Op)
+    (h : Private s) (hno : ∀ p ∈ s.peers, p.pexOn = false) :
+    let st := (step s parked known op).1.st
+    st.info = true ∧ st.cfg = s.cfg ∧ st.dials = s.dials ∧ ∀ p ∈ st.peers, p.pexOn = false :=
+  ⟨(step_info_private s parked known op h.2).trans h.1, step_cfg s parked known op,
+    step_dials_private s parked known op h.1 h.2, step_noPex s parked known op h.2 hno⟩
+
+/-- **private_dstep_isolated.** The same for the driver-level step: the model's step followed by the
+adoption of the implementation's choice of piece downloads and metadata downloads (`reconcile` only
+clears `snubbed` flags of peers, `reconcileIdl` does not touch the peers; neither touches `info`, `cfg`,
+`dials`), for every choice, admissible or not. -/
+theorem private_dstep_isolated (sp : St × Parked) (e : Ev)
+    (h : Private sp.1) (hno : ∀ p ∈ sp.1.peers, p.pexOn = false) :
+    let st := (dstep sp e).1
+    Private st ∧ st.cfg = sp.1.cfg ∧ st.dials = sp.1.dials ∧ ∀ p ∈ st.peers, p.pexOn = false :=
+  ⟨⟨(dstep_info_private sp e h.2).trans h.1, by rw [dstep_cfg]; exact h.2⟩, dstep_cfg sp e,
+    dstep_dials_private sp e h.1 h.2, dstep_noPex sp e h.2 hno⟩
+
+/-- The run-level statement from an arbitrary state *and* an arbitrary parked piece message (the form
+that goes through the induction over the history). -/
+theorem private_run_isolated_from (sp : St × Parked) (h : Private sp.1)
+    (hno : ∀ p ∈ sp.1.peers, p.pexOn = false) (evs : List Ev) :
+    let s := (drun sp evs).1
+    s.dials = sp.1.dials ∧ (∀ p ∈ s.peers, p.pexOn = false) ∧ s.info = true ∧ s.cfg = sp.1.cfg :=
+  have hr := drun_private evs sp h.2 hno
+  ⟨drun_dials_private evs sp h.1 h.2, hr.2, hr.1.trans h.1, drun_cfg evs sp⟩
+
+/-- **private_run_isolated.** For EVERY event history — every interleaving of commands, storage gates,
+connections, peer messages, extension handshakes (advertising `ut_pex` or not), PEX messages, DHT results,
+metadata messages, disconnects, and every choice the implementation's picker makes — and every setting of
+`Config.PEXEnabled` and the other configuration values (`s0.cfg` is arbitrary but for `isPrivate`): a
+private torrent whose metadata is known never dials an address learnt from PEX or the DHT (`dials` keeps
+its initial value), never has PEX running towards a peer, never forgets its metadata and stays private.
+`s0` is any state (not only an initial one). -/
+theorem private_run_isolated (s0 : St) (h : s0.info = true ∧ s0.cfg.isPrivate = true)
+    (hp : ∀ p ∈ s0.peers, p.pexOn = false) (evs : List Ev) :
+    let s := (drun (s0, none) evs).1
+    s.dials = s0.dials ∧ (∀ p ∈ s.peers, p.pexOn = false) ∧ s.info = true ∧ s.cfg.isPrivate = true := by
+  have hr := private_run_isolated_from (s0, none) h hp evs
+  refine ⟨hr.1, hr.2.1, hr.2.2.1, ?_⟩
+  show (drun (s0, none) evs).1.cfg.isPrivate = true
+  rw [hr.2.2.2]; exact h.2
+
+/-! ### The magnet side: metadata marked private is never adopted, along every run -/
+
+/-- One event never makes a torrent adopt metadata that is marked private (`private_magnet_refused` for
+the metadata handler; no other handler sets `info`); PEX is not started either (it never is before the
+metadata is known, and this metadata never becomes known). -/
+theorem private_magnet_never_adopted_step (s : St) (parked : Parked) (known : Nat → Bool) (op : Op)
+    (hp : s.cfg.isPrivate = true) (hi : s.info = false) (hno : ∀ p ∈ s.peers, p.pexOn = false) :
+    let st := (step s parked known op).1.st
+    st.info = false ∧ st.cfg = s.cfg ∧ ∀ p ∈ st.peers, p.pexOn = false :=
+  ⟨(step_info_private s parked known op hp).trans hi, step_cfg s parked known op,
+    step_noPex s parked known op hp hno⟩
+
+theorem private_magnet_never_adopted_dstep (sp : St × Parked) (e : Ev)
+    (hp : sp.1.cfg.isPrivate = true) (hi : sp.1.info = false) (hno : ∀ p ∈ sp.1.peers, p.pexOn = false) :
+    let st := (dstep sp e).1
+    st.info = false ∧ st.cfg = sp.1.cfg ∧ ∀ p ∈ st.peers, p.pexOn = false :=
+  ⟨(dstep_info_private sp e hp).trans hi, dstep_cfg sp e, dstep_noPex sp e hp hno⟩
+
+/-- **private_magnet_never_adopted_run.** A torrent added without metadata (magnet link) whose info
+dictionary is marked private: along every event history the metadata is never adopted (`info` stays
+false — every completed metadata download ends in `stop(err)`), and PEX is never started towards a peer.
+(`dials` is *not* constant here: until the metadata is known the client cannot know that the torrent is
+private, and a magnet link is fed from the DHT — see the example `magnet_dht_dials` below.) -/
+theorem private_magnet_never_adopted_run (s0 : St) (hp : s0.cfg.isPrivate = true) (hi : s0.info = false)
+    (hno : ∀ p ∈ s0.peers, p.pexOn = false) (evs : List Ev) :
+    let s := (drun (s0, none) evs).1
+    s.info = false ∧ s.cfg.isPrivate = true ∧ ∀ p ∈ s.peers, p.pexOn = false := by
+  have hr := drun_private evs (s0, none) hp hno
+  refine ⟨hr.1.trans hi, ?_, hr.2⟩
+  show (drun (s0, none) evs).1.cfg.isPrivate = true
+  rw [drun_cfg]; exact hp
+
+/-! ### Non-vacuity -/
+
+/-- A one-piece torrent, private or not, PEX enabled (the default). -/
+def exCfg (priv : Bool) : Cfg :=
+  { pl := 16384, plens := [16384], blocks := [[(0, 16384)]], flens := [16384], fpads := [false],
+    fnames := ["a"], isPrivate := priv }
+
+/-- A started torrent (status Downloading) with one connected peer that speaks the extension protocol. -/
+def exSt (priv : Bool) (info : Bool := true) : St :=
+  { cfg := exCfg priv, info := info, errC := true, acceptor := true,
+    peers := [{ k := 0, ip := "10.0.0.1", fast := true, ext := true }] }
+
+def exEv (op : Op) : Ev := { op := op, known := fun _ => true, impl := [], implI := [] }
+
+/-- A history with everything the property speaks about: an extension handshake advertising `ut_pex`, a PEX
+message with added addresses, a DHT result, a second PEX message with only dropped addresses. -/
+def exHist : List Ev :=
+  [exEv (.exths 0 true 100 true), exEv (.pex 0 true false), exEv (.dhtpeers true), exEv (.pex 0 false true)]
+
+/-- The hypotheses of `private_run_isolated` are satisfiable. -/
+example : ((exSt true).info = true ∧ (exSt true).cfg.isPrivate = true) ∧
+    ∀ p ∈ (exSt true).peers, p.pexOn = false := by
+  refine ⟨⟨rfl, rfl⟩, ?_⟩
+  intro p hp
+  simp only [exSt, List.mem_singleton] at hp
+  rw [hp]
+
+/-- For a NON-private torrent a DHT result does make the client dial (so `dials` is not constant for
+trivial reasons) … -/
+example : (step (exSt false) none (fun _ => true) (.dhtpeers true)).1.st.dials = 1 := by decide
+
+/-- … and so does a PEX message, … -/
+example : (step (exSt false) none (fun _ => true) (.pex 0 true false)).1.st.dials = 1 := by decide
+
+/-- … and an extension handshake advertising `ut_pex` starts PEX towards the peer. -/
+example : (step (exSt false) none (fun _ => true) (.exths 0 true 100 true)).1.st.peers.map (·.pexOn) = [true] := by
+  decide
+
+/-- The same three events on the private twin: nothing. -/
+example : (step (exSt true) none (fun _ => true) (.dhtpeers true)).1.st.dials = 0 ∧
+    (step (exSt true) none (fun _ => true) (.pex 0 true false)).1.st.dials = 0 ∧
+    (step (exSt true) none (fun _ => true) (.exths 0 true 100 true)).1.st.peers.map (·.pexOn) = [false] := by
+  decide
+
+/-- The whole history: three connection attempts and PEX running for the public torrent, none for the
+private one (the latter is an instance of `private_run_isolated`). -/
+example : (drun (exSt false, none) exHist).1.dials = 3 ∧
+    (drun (exSt false, none) exHist).1.peers.map (·.pexOn) = [true] ∧
+    (drun (exSt true, none) exHist).1.dials = 0 ∧
+    (drun (exSt true, none) exHist).1.peers.map (·.pexOn) = [false] := by
+  decide
+
+/-- Why `private_magnet_never_adopted_run` says nothing about `dials`: before the metadata is known a DHT
+result is used, private or not (the client cannot know yet). -/
+theorem magnet_dht_dials :
+    (step (exSt true false) none (fun _ => true) (.dhtpeers true)).1.st.dials = 1 := by decide
 
 end Rain.Props.C19
